@@ -12,7 +12,7 @@
   header-derived layout vs. the framework's actions; result codes; canaries) is the
   correspondence / monitor run (`tools/props_ffi.py`).
 -/
-import MbVerif.Proofs.FfiSpec
+import MbVerif.Proofs.FfiSession
 
 namespace Mb.C20
 open Mb Mb.Ffi
@@ -163,6 +163,41 @@ end
     a `filterMap` over the per-machine action slots. -/
 theorem C20_hC04_of_slots {σ : Type} (s : Fw σ) (n : Nat) (h : s.actions.length = n) : s.actionsOut.length ≤ n := by
   rw [← h]; exact List.length_filterMap_le _ _
+
+/-! ### 3b. the contract discharged: a whole API session -/
+
+/-- END TO END, no hypothesis about the framework left.  For an instance created from ANY
+    machines and fractions (`Fw.init`, i.e. a successful `maybenot_start`), after ANY history of
+    calls, under ANY random source, the next `maybenot_on_events` call on a buffer with room for
+    `num_machines` actions: the count is the number of actions the framework returns and is at
+    most `num_machines`; the first `count` slots decode (with maybenot.h) to exactly those
+    actions, in order, field for field; every other slot of the caller's memory is unchanged.
+    The framework's output contract comes from the C04 theorems. -/
+theorem C20_session {σ : Type} (ρ : Oracle σ) (ms : List Machine) (fp fb : F64) (t0 : Int) (rng : σ)
+    (h : List Call) (now : Int) (evs : List CEvent) (buf : List Bytes) (r : Fw σ × List Bytes × Nat)
+    (hms : ms.length < 2 ^ 64) (hbuf : ms.length ≤ buf.length)
+    (hrun : onEvents ρ (runCalls ρ (Fw.init ρ ms fp fb t0 rng) h) now evs buf = some r) :
+    r.2.2 = r.1.actionsOut.length ∧ r.2.2 ≤ ms.length ∧
+    (r.2.1.take r.2.2).map decodeAction = r.1.actionsOut.map (fun a => some (view a)) ∧
+    r.2.1.drop r.2.2 = buf.drop r.2.2 ∧ r.2.1.length = buf.length := by
+  have hmach := runCalls_machines ρ ms fp fb t0 rng h
+  obtain ⟨tes, _, hr1⟩ := C20_framework_step ρ _ now evs buf r hrun
+  have hmem := runStates_snoc ρ (Fw.init ρ ms fp fb t0 rng) h (tes, now)
+  rw [← hr1] at hmem
+  have hcnt := C04.C04_count ρ ms fp fb t0 rng _ r.1 hmem
+  have hout := C04.C04_out ρ ms fp fb t0 rng _ r.1 hmem
+  have hrange : ∀ a ∈ r.1.actionsOut, inRange a := by
+    intro a ha
+    simp only [C04.outOK, Bool.and_eq_true, List.all_eq_true] at hout
+    exact inRange_of_actionOK ms a hms (hout.2 a ha)
+  have hbuf' : (runCalls ρ (Fw.init ρ ms fp fb t0 rng) h).machines.length ≤ buf.length := by rw [hmach]; exact hbuf
+  have hC04 : r.1.actionsOut.length ≤ (runCalls ρ (Fw.init ρ ms fp fb t0 rng) h).machines.length := by
+    rw [hmach]; exact hcnt
+  have h1 := C20_count ρ _ now evs buf r hbuf' hrun hC04
+  have h2 := C20_written_actions ρ _ now evs buf r hbuf' hrun hC04 hrange
+  have h3 := C20_suffix_unchanged ρ _ now evs buf r hrun
+  rw [hmach] at h1
+  exact ⟨h1.1, h1.2, h2, h3.1, h3.2⟩
 
 /-! ### 4. events -/
 
